@@ -523,7 +523,7 @@ def _apply(ev, fn, x, y):
         return ev.truth(ev.call(fn, None, [x, y]))          # a plain function used as the predicate
     if fn is None:
         return ev.binop("==", x, y)
-    cls = getattr(fn, "_cls", None)
+    cls = getattr(fn, "_cls", None) or (getattr(fn, "_t", None) if isinstance(fn, Struct) else None)
     if cls and ev.prog is not None:
         # a function object of the repository: its (possibly templated) operator() with two parameters
         ops = [f for f in ev.prog.funcs.values() if f.get("cls") == cls and f["n"] == "operator()" and len(f["params"]) == 2 and f.get("body") is not None]
@@ -1086,6 +1086,8 @@ class CxxEvaluator(Evaluator):
             return self.binop(e["op"], a, b)
         if k == "cast":
             v = self.eval(e["e"], env, this)
+            if isinstance(v, list) and not v and self.prog is not None and (e.get("t") or "").replace("const ", "") in self.prog.records:
+                return self.new_object((e.get("t") or "").replace("const ", ""))      # `T {}` of a repository class: value-initialised object
             if e.get("ck") == "reinterpret" and hasattr(v, "reinterpret_as"):
                 # an abstract library object states itself what a reinterpretation of its storage reads (its first member)
                 return v.reinterpret_as(e.get("t"))
